@@ -294,6 +294,17 @@ class Executor:
         except z3.Z3Exception:
             return False
 
+    def narrow(self, state, v):
+        """drop the alternatives of a union whose guard is refuted by the path condition (equivalent value)"""
+        if not isinstance(v, VUnion):
+            return v
+        keep = [(g, a) for g, a in v.alts if not self.prove_quick(state, z3.Not(g))]
+        if len(keep) == len(v.alts) or not keep:
+            return v
+        if len(keep) == 1:
+            return keep[0][1]
+        return mk_union(keep)
+
     def index_term(self, state, i, n):
         """normalised Python index: i if provably >= 0, else If(i < 0, i + n, i)"""
         i = simp(i)
